@@ -680,19 +680,28 @@ def rule_C5(prog):
                 if not c:
                     continue
                 involved = False
-                for a in t["args"]:
+                inv_pos = []
+                for ai, a in enumerate(t["args"]):
                     if a["k"] in ("copy", "move"):
                         if is_dl_place(a["p"]):
                             involved = True
+                            inv_pos.append(ai)
                         else:
                             sd = m.single_def(a["p"]["l"]) if not a["p"]["proj"] else None
                             if sd and sd[2] == "assign" and sd[3]["k"] == "ref" and is_dl_place(sd[3]["p"]):
                                 involved = True
+                                inv_pos.append(ai)
                 if not involved:
                     continue
                 g, pos = d.callee_deadline_positions(c)
                 r.instances += 1
                 ok = bool(pos) or c["path"] in ALLOWED_CALLEE
+                if not ok and g is None and c.get("local") and not c.get("trait"):
+                    g = prog.fn(c["path"])
+                if not ok and g is not None and g.mir and g.sig and g.module != "deadline_support":
+                    # a local function that declares the value as a deadline-typed parameter is itself held to this rule
+                    ins = g.sig["inputs"]
+                    ok = all(i < len(ins) and is_deadline_ty(ins[i]) for i in inv_pos)
                 r.ob(ok, "%s passes a deadline value to %s" % (fn.path, c["path"]))
                 if not ok:
                     r.find(fn.path, "deadline-flows-to:" + c["path"], "%s hands a deadline value to %s, which is neither a "
